@@ -257,22 +257,27 @@ def observe(events, cwd):
     fds = {}
     obs = {"opens": [], "mutations": [], "ftruncates": [], "model": {"execs": 0, "forks": 0, "chdirs": 0}}
 
+    def norm(p):
+        # no textual folding of `x/..`: x may be a symbolic link (the kernel resolves it, so does realpath() later)
+        parts = [c for c in p.split("/") if c not in ("", ".")]
+        return "/" + "/".join(parts)
+
     def at(dirtok, pathtok):
         p = unquote(pathtok)
         if p is None:
             return "<unparsed:%s>" % pathtok
         if os.path.isabs(p):
-            return os.path.normpath(p)
+            return norm(p)
         d = dirtok.strip() if dirtok is not None else "AT_FDCWD"
         if d.startswith("AT_FDCWD"):
-            return os.path.normpath(os.path.join(cwd, p))
+            return norm(os.path.join(cwd, p))
         try:
             base = fds.get(int(d))
         except ValueError:
             base = None
         if base is None:
             return "<fd %s>/%s" % (d, p)
-        return os.path.normpath(os.path.join(base, p))
+        return norm(os.path.join(base, p))
 
     for ev in events:
         c, a, ret = ev["call"], ev["args"], ev["ret"]
@@ -508,7 +513,10 @@ CLONE_MODES = ["plain", "force", "seed1", "seed2", "stdin-seed", "in-place", "se
                "stdin-file-seed", "stdin-file-seed+in-place",
                # the prior output has a second hard link (a snapshot made with `ln`): an update in place updates the
                # file behind both names and replaces nothing
-               "in-place-hardlink"]
+               "in-place-hardlink",
+               # which file "the given output" is, is for the operating system to say: a symbolic link with a relative target
+               # in another directory than the current one, and a path that leaves a symlinked directory through `..`
+               "force-symlink-elsewhere", "in-place-dotdot-through-symlink"]
 LOCS = ["local", "http"]
 VERIFY = ["none", "verify-output", "verify-header"]
 STYLES = ["rel", "abs"]
@@ -696,6 +704,23 @@ def run_clone_case(env_, case, case_dir, log_path):
         with open(stdin_path, "wb") as f:
             f.write(mat["stdin"])
         readonly.append(stdin_path)
+    out_arg = out_rel
+    if mode == "force-symlink-elsewhere":
+        argv.append("-f")
+        with open(os.path.join(case_dir, "out", "target.img"), "wb") as f:
+            f.write(mat["junk"])
+        os.symlink("target.img", out_abs)            # out/output.img -> target.img, resolved against out/, not the cwd
+    if mode == "in-place-dotdot-through-symlink":
+        argv.append("--seed-output")
+        for dd in ("releases/v1", "releases/images", "images"):
+            os.makedirs(os.path.join(case_dir, "out", dd))
+        os.symlink(os.path.join("releases", "v1"), os.path.join(case_dir, "out", "current"))
+        with open(os.path.join(case_dir, "out", "releases", "images", "output.img"), "wb") as f:
+            f.write(mat["prior"])
+        with open(os.path.join(case_dir, "out", "images", "output.img"), "wb") as f:
+            f.write(mat["junk"])                     # an unrelated file where a textual reading of the path ends up
+        out_arg = os.path.join("out", "current", "..", "images", "output.img")
+        out_abs = os.path.join(case_dir, "out", "releases", "images", "output.img")
     if mode in ("in-place", "seed+in-place", "stdin-file-seed+in-place", "in-place-hardlink"):
         argv.append("--seed-output")
         with open(out_abs, "wb") as f:
@@ -732,7 +757,7 @@ def run_clone_case(env_, case, case_dir, log_path):
             name = "corrupt-" + var["name"]
             srv.files[name] = archive_bytes
         argv.append(srv.url(name, "c16=" + os.path.basename(case_dir)))
-    argv.append(P(out_rel))
+    argv.append(P(out_arg))
 
     if case.get("verbose"):
         argv.insert(1, case["verbose"])
